@@ -215,11 +215,11 @@ pub fn generate(seed: u64) -> Scenario {
         platform_present: r.chance(9, 10),
         env_dir_present: r.chance(7, 8),
         entries,
-        os: s(&mut r, &["linux", "windows", "", "ünï"]),
-        arch: s(&mut r, &["amd64", "arm64", "with space"]),
-        variant: r.bool().then(|| s(&mut r, &["v8", "", "v7"])),
-        distro_name: s(&mut r, &["ubuntu", "", "alpine linux"]),
-        distro_version: s(&mut r, &["24.04", "", "3.20.1"]),
+        os: s(&mut r, &["linux", "windows", "", "ünï", " linux"]),
+        arch: s(&mut r, &["amd64", "arm64", "with space", "amd64 "]),
+        variant: r.bool().then(|| s(&mut r, &["v8", "", "v7", " ", "v8\n"])),
+        distro_name: s(&mut r, &["ubuntu", "", "alpine linux", "\tubuntu"]),
+        distro_version: s(&mut r, &["24.04", "", "3.20.1", "24.04 \n"]),
         desc: gen_desc(&mut r),
         plan: (0..r.usize(4))
             .map(|_| (s(&mut r, &["node", "jdk", "", "with space", "ünï"]), if r.bool() { gen_table(&mut r, 0) } else { Vec::new() }))
